@@ -9,6 +9,7 @@ import (
 	"gitee.com/Trisia/gotlcp/dtlcp"
 	"gitee.com/Trisia/gotlcp/vs"
 
+	"verifsim/fix"
 	"verifsim/ref"
 	"verifsim/simnet"
 )
@@ -27,6 +28,11 @@ type c15Params struct {
 	Big   int    `json:"big"`   // one Write of this size through the stream API (0: none)
 	Zero  bool   `json:"zero"`  // finish with an empty WriteTo followed by a marker datagram (client -> server)
 	Loss  []int  `json:"loss"`  // handshake datagrams to drop (by name index into c15LossNames), to provoke retransmission
+	// OuterPMTU != 0: the server is reached through a listener configuration with this PMTU whose
+	// GetConfigForClient returns the configuration with PMTUS (the one in force for the connection)
+	OuterPMTU int `json:"outer_pmtu,omitempty"`
+	// ChainPad: extra certificates in the server's chain, so that the Certificate message exceeds one record
+	ChainPad int `json:"chain_pad,omitempty"`
 }
 
 var c15LossNames = []string{"CH0#1", "CH1#1", "HVR#1", "F5b#1"}
@@ -34,7 +40,7 @@ var c15LossNames = []string{"CH0#1", "CH1#1", "HVR#1", "F5b#1"}
 func (c15) ID() string    { return "C15" }
 func (c15) Level() string { return "exploration" }
 func (c15) Rule() string {
-	return "each case draws a suite, a path MTU for each side independently (from 200 up to above the record limit, 0 = default 1400), client authentication on/off, a list of WriteTo payload sizes around the boundaries (0, 1, the exact maximum payload for that MTU and suite computed by the reference record format, one and sixteen bytes above it, 16384) for both directions, optionally one large Write through the stream API, and 0-2 losses of handshake datagrams whose retransmission is known to work (so that retransmitted flights are measured too). Oracle (wire monitor over everything handed to the PacketConn): every datagram <= the sender's path MTU; no record with more than 16384 plaintext bytes; a WriteTo of at most the maximum payload is exactly one datagram and the peer's ReadFrom returns exactly that payload; larger writes through Write arrive complete and in order. distinct = distinct parameter vectors; non-trivial = handshake completed and at least one boundary-size payload crossed"
+	return "each case draws a suite, a path MTU for each side independently (from 200 up to above the record limit, 0 = default 1400), client authentication on/off, a list of WriteTo payload sizes around the boundaries (0, 1, the exact maximum payload for that MTU and suite computed by the reference record format, one and sixteen bytes above it, 16384) for both directions, optionally one large Write through the stream API, 0-2 losses of handshake datagrams whose retransmission is known to work (so that retransmitted flights are measured too), optionally a server reached through a listener configuration of another PMTU whose GetConfigForClient returns the configuration in force, and optionally a server certificate chain that makes the Certificate message 16.4-17.3 KB (a handshake message above the record limit). Oracle (wire monitor over everything handed to the PacketConn): every datagram <= the sender's path MTU; no record with more than 16384 plaintext bytes; a WriteTo of at most the maximum payload is exactly one datagram and the peer's ReadFrom returns exactly that payload; larger writes through Write arrive complete and in order. distinct = distinct parameter vectors; non-trivial = handshake completed and at least one boundary-size payload crossed"
 }
 func (c15) Components() (real, stub []string) {
 	return []string{"dtlcp client+server (instrumented): record sizing, handshake fragmentation, flight buffering and flush, retransmission"},
@@ -105,6 +111,21 @@ func drawC15(src *vs.Src) *c15Params {
 		p.Big = 1 + src.Intn(40000)
 	}
 	p.Zero = src.Bool(1, 6)
+	if src.Bool(1, 4) {
+		p.OuterPMTU = pickInt(src, []int{1400, 3000, 17000, 300})
+	}
+	if src.Bool(1, 5) {
+		// a Certificate message just above the record limit (16385..17300 bytes): it needs two records whatever
+		// the PMTU, and the flight still fits the receiver's datagram buffer (the library sends a flight as one
+		// datagram - known finding K3 - so that a longer chain cannot be received at all)
+		per := len(fix.DER("ca1")) + 3
+		base := len(fix.DER("server_sig")) + len(fix.DER("server_enc")) + 6 + 3
+		p.ChainPad = (16385 - base + per - 1) / per
+		p.PMTUS = 0 // default 1400: about a dozen fragments
+		if src.Bool(2, 3) {
+			p.PMTUS = 16384 + src.Intn(3000)
+		}
+	}
 	nl := src.Intn(3)
 	for i := 0; i < nl; i++ {
 		p.Loss = append(p.Loss, src.Intn(len(c15LossNames)))
@@ -130,7 +151,10 @@ func (c15) Run(c *Case, src *vs.Src) *Result {
 	w.K.MaxElapsed = 200 * time.Second
 	env := NewEnv(w)
 	cc := &EPConf{Suites: []uint16{p.Suite}, ServerName: "server.test", PMTU: p.PMTUC}
-	sc := &EPConf{Suites: []uint16{p.Suite}, Certs: []string{"server_sig", "server_enc"}, ClientCAs: []string{"ca1"}, PMTU: p.PMTUS}
+	sc := &EPConf{Suites: []uint16{p.Suite}, Certs: []string{"server_sig", "server_enc"}, ClientCAs: []string{"ca1"}, PMTU: p.PMTUS, ChainPad: p.ChainPad}
+	if p.OuterPMTU != 0 {
+		sc.Clone, sc.OuterPMTU = 2, p.OuterPMTU
+	}
 	if p.Auth || IsECDHE(p.Suite) {
 		cc.Certs = []string{"client_sig", "client_enc"}
 	}
@@ -292,11 +316,26 @@ func (c15) Run(c *Case, src *vs.Src) *Result {
 			break
 		}
 	}
+	// record sizes straight off the wire (whether or not the handshake went through): an unprotected record's
+	// length is its plaintext length
+	for _, d := range pair.Net.SentLog() {
+		b := d.Data
+		for q := 0; q+13 <= len(b); {
+			n := int(b[q+11])<<8 | int(b[q+12])
+			epoch := int(b[q+3])<<8 | int(b[q+4])
+			if epoch == 0 && n > 16384 {
+				r.Violate("record-size", sigp+" plaintext>16384", "unprotected record of type %d with %d bytes of plaintext in a datagram of %d bytes", b[q], n, len(b))
+			} else if n > 16384+2048 {
+				r.Violate("record-size", sigp+" ciphertext>18432", "record of type %d with %d bytes", b[q], n)
+			}
+			q += 13 + n
+		}
+	}
 	if ci.hsErr != nil || si.hsErr != nil {
-		// tiny MTUs may make a handshake impossible; that is not what is judged here
+		// every configuration generated here (path MTU >= 200, flights that fit the receiver's datagram buffer,
+		// only losses whose retransmission works) permits a handshake: a failure is the sizing logic's doing
 		r.Outcome = "handshake-failed"
-		r.Trivial = true
-		r.Stat("handshake_failed_small_mtu", 1)
+		r.Violate("handshake-failed", sigp+" handshake-failed", "honest handshake failed with path MTU client %d / server %d, chain padding %d, losses %v: client %v, server %v", pmtuOf(p.PMTUC), pmtuOf(p.PMTUS), p.ChainPad, p.Loss, ci.hsErr, si.hsErr)
 		return r
 	}
 	for _, e := range append(ci.wErr, si.wErr...) {
